@@ -188,16 +188,43 @@ func (r GenResult) String() string {
 
 var soloCache = map[string]GenResult{}
 
-func solo(c GClient, mapSeed uint64) GenResult {
+// solo is the reference for a client: the same generation alone. In the
+// woven build it runs under the scheduler with an all-zero tape and no active
+// yield site (the sequential schedule: the caller runs until it blocks, then
+// the goroutines it spawned run one after the other in name order), so the
+// reference itself is a pure function of the code and replays exactly. In
+// the unwoven race build it simply runs.
+func solo(t *testing.T, c GClient, mapSeed uint64, race bool) GenResult {
 	key := fmt.Sprintf("%d|%s|%d", c.Text, c.optString(), mapSeed)
 	if r, ok := soloCache[key]; ok {
 		return r
 	}
 	var r GenResult
-	simrt.SetMapSeed(mapSeed)
-	se := simrt.CaptureStderr(func() { r = generate(c, nil) })
-	simrt.SetMapSeed(0)
-	r.Stderr = se
+	if race {
+		se := simrt.CaptureStderr(func() { r = generate(c, nil) })
+		r.Stderr = se
+		soloCache[key] = r
+		return r
+	}
+	func() {
+		defer func() {
+			if x := recover(); x != nil {
+				r.Panic = fmt.Sprint("bubble: ", x)
+			}
+		}()
+		synctest.Test(t, func(t *testing.T) {
+			res := simrt.Run(simrt.Config{ActiveNum: 0, ActiveDen: 1, MapSeed: mapSeed}, []simrt.Client{{Name: "c0", Run: func() { r = generate(c, nil) }}})
+			if len(res.Stderr) > 0 {
+				r.Stderr = res.Stderr[0]
+			}
+			if res.Deadlock {
+				r.Panic = "deadlock in the sequential schedule"
+			}
+			if len(res.ClientPanic) > 0 && res.ClientPanic[0] != "" && r.Panic == "" {
+				r.Panic = res.ClientPanic[0]
+			}
+		})
+	}()
 	soloCache[key] = r
 	return r
 }
@@ -213,12 +240,12 @@ func runCase(t *testing.T, c GCase, keepLog bool) (out Outcome) {
 	// reference: each client alone, sequentially, native map order
 	want := make([]GenResult, len(c.Clients))
 	for i, cl := range c.Clients {
-		want[i] = solo(cl, 0)
+		want[i] = solo(t, cl, 0, c.Race)
 	}
 	// map-order dimension: the same generation alone under a permuted order
 	if c.MapSeed != 0 {
 		for i, cl := range c.Clients {
-			got := solo(cl, c.MapSeed)
+			got := solo(t, cl, c.MapSeed, c.Race)
 			if got.String() != want[i].String() {
 				out.Class = "map_order"
 				out.Detail = fmt.Sprintf("text %s options [%s]: output depends on map iteration order\n  runtime order : %s\n  permuted order: %s", texts[cl.Text].Name, cl.optString(), want[i], got)
@@ -306,9 +333,6 @@ func runCase(t *testing.T, c GCase, keepLog bool) (out Outcome) {
 	for i, cl := range c.Clients {
 		if got[i].String() != want[i].String() {
 			out.Class = "schedule_dependent_output"
-			if len(c.Clients) > 1 {
-				out.Class = "concurrent_generations_interfere"
-			}
 			if c.Race {
 				out.Class = "free_running_output_differs"
 			}
@@ -391,7 +415,7 @@ func TestSim(t *testing.T) {
 				if ti%job.To != job.From {
 					continue
 				}
-				res.Solo = append(res.Solo, solo(c, 0))
+				res.Solo = append(res.Solo, solo(t, c, 0, job.Race))
 			}
 		}
 		write(t, res)
